@@ -238,7 +238,8 @@ def _external(pid, mod, prog, base_fail):
             res, _, _ = mod.run(p2, "quick")
             fired = bool(_failing(res) - base_fail)
         except AnalysisError:
-            fired = False
+            # a change the algebra cannot express: the check fails closed (exit 2), which is recorded as such in the meta
+            fired = m.get("expected") == "analysis-error"
         except Exception:
             fired = False
         if not fired:
